@@ -352,6 +352,12 @@ def apply_rules(card, sig, body, log):
         log.append({'rule': 'X0', 'match': 'use-alias %s => %s' % (a, b)})
     if INLINABLE and card.path.split('::')[-1] not in INLINABLE:
         body = inline_helpers(body, log)
+    if INLINE_CONSTS:
+        for _pass in range(3):   # an initialiser may itself name a constant
+            body2 = inline_consts(card, body, log)
+            if body2 == body:
+                break
+            body = body2
     run('X1', R.x1_logging)
     for (rule, old, new) in card.bodysubs:
         if old not in body:
@@ -876,6 +882,58 @@ def can_auto_extract(repo, tname, fname):
     return find_auto(repo, tname, fname) is not None
 
 
+# X27: named constants introduced by a refactoring (no //@const directive) are replaced by their initialiser
+INLINE_CONSTS = {}
+
+
+def find_const_expr(repo, tname, cname):
+    """Initialiser of `const cname: T = EXPR;` (inside an inherent impl of tname, or at module level if tname == '')."""
+    for base, dirs, files in os.walk(os.path.join(repo, 'src')):
+        dirs.sort()
+        for f in sorted(files):
+            if not f.endswith('.rs'):
+                continue
+            rel = os.path.relpath(os.path.join(base, f), repo)
+            src, clean = load(repo, rel)
+            for m in re.finditer(r'\bconst\s+%s\s*:\s*([^=;]+)=\s*([^;]+);' % re.escape(cname), clean):
+                depth = 0
+                # depth 0 = module level; inside `impl tname` = depth 1
+                inside = None
+                from rustscan import impl_blocks, impl_self_type
+                for hdr, b, e in impl_blocks(clean):
+                    if b < m.start() < e:
+                        inside = impl_self_type(hdr)
+                if (tname and inside == tname) or (not tname and inside is None):
+                    expr = src[m.start(2):m.end(2)].strip()
+                    if tname:
+                        expr = re.sub(r'\bSelf\b', tname, expr)
+                    if re.search(r'[{;]', expr) and not re.fullmatch(r'[\w:]+\s*\{[^{};]*\}', expr):
+                        return None
+                    return expr
+    return None
+
+
+def can_inline_const(repo, tname, cname):
+    return find_const_expr(repo, tname, cname) is not None
+
+
+def inline_consts(card, body, log):
+    own = card.path.split('::')[0] if '::' in card.path else None
+    for (tname, cname), expr in INLINE_CONSTS.items():
+        pats = []
+        if tname:
+            pats.append(r'\b%s::%s\b' % (re.escape(tname), re.escape(cname)))
+            if own == tname:
+                pats.append(r'\bSelf::%s\b' % re.escape(cname))
+        else:
+            pats.append(r'(?<![\w:\.])%s\b(?!\s*[:(])' % re.escape(cname))
+        for p_ in pats:
+            body, n = re.subn(p_, '(' + expr + ')', body)
+            if n:
+                log.append({'rule': 'X27', 'match': 'constant %s%s := %s (%d uses)' % ((tname + '::') if tname else '', cname, expr[:60], n)})
+    return body
+
+
 # X26: helpers introduced by a refactoring (no card) that are plain straight-line code are inlined at their call
 # sites, so that the callers are verified against their own contracts as before.  name -> (params, body)
 INLINABLE = {}
@@ -991,6 +1049,14 @@ def generate(repo, template_paths, twin=False, only=None, auto=()):
     """Returns (text, meta_per_line, info)."""
     out = Output()
     info = {'functions': [], 'types': [], 'consts': [], 'lemmas': [], 'trusted': []}
+    INLINE_CONSTS.clear()
+    # core::num::NonZeroU16::MIN (the shim has no associated constants): the value 1
+    INLINE_CONSTS[('NonZeroU16', 'MIN')] = 'NonZeroU16::new(1).unwrap()'
+    for (tn_, cn_) in [a_ for a_ in auto if str(a_[0]).startswith('const:')]:
+        ex_ = find_const_expr(repo, tn_[6:], cn_)
+        if ex_ is not None:
+            INLINE_CONSTS[(tn_[6:], cn_)] = ex_
+    auto = [a_ for a_ in auto if not str(a_[0]).startswith('const:')]
     build_inlinable(repo, auto)
     for tp in template_paths:
         lines = open(tp).read().split('\n')
